@@ -139,7 +139,11 @@ func (d *discover) pollTimer() {
 func (d *discover) requestDiscovery() {
 	for t := range d.p.myTopics {
 		if !d.p.rt.EnoughPeers(t, 0) {
-			d.discoverQ <- &discoverReq{topic: t, done: make(chan struct{}, 1)}
+			select {
+			case d.discoverQ <- &discoverReq{topic: t, done: make(chan struct{}, 1)}:
+			case <-d.p.ctx.Done():
+				return
+			}
 		}
 	}
 }
@@ -235,7 +239,10 @@ func (d *discover) Discover(topic string, opts ...discovery.Option) {
 		return
 	}
 
-	d.discoverQ <- &discoverReq{topic, opts, make(chan struct{}, 1)}
+	select {
+	case d.discoverQ <- &discoverReq{topic, opts, make(chan struct{}, 1)}:
+	case <-d.p.ctx.Done():
+	}
 }
 
 // Bootstrap attempts to bootstrap to a given topic. Returns true if bootstrapped successfully, false otherwise.
